@@ -49,6 +49,7 @@ Section Leaves.
   Variable slm : slmode.
   Variable dfm ddm : N.
   Variable own : bool.
+  Variable fixed : bool.
 
   (* ---------- ensureExpectedFile ---------- *)
   Lemma ensure_expected_file_spec : forall h n p e s s' r,
@@ -253,6 +254,7 @@ Section Move.
   Variable slm : slmode.
   Variable dfm ddm : N.
   Variable own : bool.
+  Variable fixed : bool.
 
   (* the unlink of the temporary file after a failure *)
   Lemma drop_temp_spec : forall (A : Type) h tn (r0 : result A) s s' r,
@@ -480,6 +482,7 @@ Section Move2.
   Variable slm : slmode.
   Variable dfm ddm : N.
   Variable own : bool.
+  Variable fixed : bool.
 
   Lemma find_and_move_spec : forall p target h n replace s s' r,
     find_and_move E dfm own p target h n replace s = (s', r) ->
